@@ -180,6 +180,9 @@ def run_scenario(sc, workdir, crash_call=None, crash_k=None):
     return state["trace"], crashed
 
 
+FOREIGN = ("ck_1_0.pkl", "ck_1_2.pkl", "ck_1_6.pkl")
+
+
 def impl_main(payload):
     work = os.path.join(vlib.VERIF, "work", "c13_%d" % os.getpid())
     results = []
@@ -201,6 +204,9 @@ def impl_main(payload):
             os.makedirs(work)
             open(os.path.join(work, "other.pkl"), "wb").write(b"not ours")
             open(os.path.join(work, "ck_keep.txt"), "w").write("keep")
+            # checkpoints of ANOTHER optimizer whose base name extends this one's ("ck_1" next to "ck"): not ours either
+            for fn_ in FOREIGN:
+                open(os.path.join(work, fn_), "wb").write(b"a sibling's checkpoint")
             tr, crashed = run_scenario(sc, work, crash_call=last, crash_k=k)
             out, viol = [], []
             loadable = []
@@ -220,7 +226,13 @@ def impl_main(payload):
             cur_ages = sc["calls"][last]["ages"]
             if first_done and not loadable:
                 viol.append("crash after %d file steps: no complete, loadable checkpoint on disk" % k)
-            extra = [f for f in os.listdir(work) if f not in ("other.pkl", "ck_keep.txt")]
+            extra = [f for f in os.listdir(work) if f not in ("other.pkl", "ck_keep.txt") + FOREIGN]
+            for fn_ in FOREIGN:
+                pth_ = os.path.join(work, fn_)
+                if not os.path.exists(pth_):
+                    viol.append("the file %s, a checkpoint of another optimizer (base name ck_1), was deleted" % fn_)
+                elif open(pth_, "rb").read() != b"a sibling's checkpoint":
+                    viol.append("the file %s, a checkpoint of another optimizer (base name ck_1), was overwritten" % fn_)
             own_now = [f for f in extra if f.endswith(".pkl") and int(f.split("_")[1].split(".")[0]) in cur_ages]
             if sc["num"] is not None and len(own_now) > sc["num"] + 1:
                 viol.append("%d checkpoints of this call on disk, %d requested" % (len(own_now), sc["num"]))
